@@ -69,7 +69,7 @@ func init() {
 		// goroutine reads the same source bytes
 		for _, fl := range [][]string{nil, {"-zip"}} {
 			lg := &gram.Grammar{
-				Lex: []gram.LexDef{{Name: "id", Kind: "tok", P: gram.Seq(gram.Rng('a', 'z'), gram.Rep(gram.Rng('a', 'z')))}, {Name: "num", Kind: "tok", P: gram.Seq(gram.Rng('0', '9'), gram.Rep(gram.Rng('0', '9')))}, {Name: "!ws", Kind: "ign", P: gram.Lit(' ')}},
+				Lex:  []gram.LexDef{{Name: "id", Kind: "tok", P: gram.Seq(gram.Rng('a', 'z'), gram.Rep(gram.Rng('a', 'z')))}, {Name: "num", Kind: "tok", P: gram.Seq(gram.Rng('0', '9'), gram.Rep(gram.Rng('0', '9')))}, {Name: "!ws", Kind: "ign", P: gram.Lit(' ')}},
 				Alts: []gram.Alt{{Head: "S", Body: []gram.Sym{{Name: "id"}, {Name: "num"}}}, {Head: "S", Body: []gram.Sym{{Name: "num"}, {Name: "S"}}}},
 			}
 			it := corp.NewItem("LongTok", gram.WithRecActions(lg), fl...)
